@@ -10,13 +10,29 @@ def scale_for(xtype, mem):
     return 1 if w == 1 else (259 if w == 2 else 65539)
 
 
+# configuration deviation applied to every Script / Prog built while it is set (C10)
+GLOBAL = dict(hints=None, env=None)
+
+
+def merge_cfg(hints, env):
+    h = ';'.join(x for x in (hints, GLOBAL['hints']) if x) or None
+    e = dict(env or {})
+    if GLOBAL['env']:
+        for k, v in GLOBAL['env'].items():
+            if k == 'PNETCDF_HINTS' and k in e: e[k] = e[k] + ';' + v
+            else: e.setdefault(k, v)
+    return h, (e or None)
+
+
 class Script:
     def __init__(self, name, np=1, fmt=1, dims=(), vars_=(), opts=None, hints=None, env=None, path='a.nc', fill=False, define=True):
         """dims: [(name, len|None)], vars_: [(name, xtype, dimids)]"""
+        hints, env = merge_cfg(hints, env)
         self.case = Case(name, np, opts)
         self.np = np; self.fmt = fmt; self.path = path
         self.model = D.DataModel(dims, vars_)
         self.expect = []          # (line, ranks or None=all that ran it, fn(OpResult, rank) -> None | (sig, detail))
+        self.get_exp = {}         # line of a get -> expected values (None = undefined content)
         self.hints = hints
         self.nevals = 0
         if env: self.case.op('*', 'env', **env)
@@ -116,6 +132,7 @@ class Script:
         if extra: kw.update(extra)
         exp = expect if expect is not None else [var.vals.get(i) for i in idx]
         ln = self.op(ranks, 'get', **kw)
+        self.get_exp[ln] = exp
         desc = '%s form=%s mem=%s lay=%s coll=%d' % (what, form, mem, lay, coll)
 
         def chk(r, rank, ln=ln, exp=exp, desc=desc, form=form):
